@@ -2,6 +2,7 @@ import DaskModel.Model.Counting
 import DaskModel.Lemmas.CountingLemmas
 import DaskModel.Lemmas.CountingMoreLemmas
 import DaskModel.Lemmas.CoarsenLemmas
+import DaskModel.Lemmas.Coarsen2DLemmas
 import DaskModel.Lemmas.HistogramLemmas
 import DaskModel.Lemmas.RavelLemmas
 /-!
@@ -23,7 +24,8 @@ Clauses of the statement and their theorems:
   ravel_multi_index / unravel_index unravel_ravel_C, ravel_unravel_C, ravel_multi_index_unravel, unravel_index_ravel,
                                     ravel_multi_index_modes, unravel_blocks
   coarsen                           coarsen_den, aligned_coarsen_chunks_spec, aligned_coarsen_chunks_fixpoint,
-                                    coarsen_any_chunking, coarsen_rejects, coarsen_declared_chunks
+                                    coarsen_any_chunking, coarsen_rejects, coarsen_declared_chunks,
+                                    coarsen2_den, coarsen2_any_chunking (both axes of a 2-d array)
   compress (extract)                compress_den, compress_rejects, compress_np_den, extract_den
 -/
 namespace Dask.C27
@@ -347,6 +349,74 @@ theorem coarsen_declared_chunks (d : Nat) (hd : 0 < d) (order cs : List Nat) (hv
 
 example : coarsenDeclaredChunks 4 [4, 4, 2] = [1, 1] := by decide
 example : coarsenDeclaredChunks 4 [3] = [0] := by decide
+
+/-! ### coarsen over both axes of a 2-d array -/
+
+/-- **coarsen2_den**: a 2-d array cut into an `a0 × a1` grid of blocks whose row chunks and column chunks are multiples
+    of the factors (except the last of each): coarsening every block on its own and tiling the results is coarsening
+    the whole array. (Polymorphic in the element type: a third axis is the same statement about rows of rows.) -/
+theorem coarsen2_den {α β} (red : List (List α) → β) (d0 d1 : Nat) (hd0 : 0 < d0) (hd1 : 0 < d1) (a0 a1 : List Nat)
+    (M : List (List α)) (hne : a1 ≠ []) (h0 : AlignedLens d0 a0) (h1 : AlignedLens d1 a1) (hlen : M.length = sum a0) :
+    coarsen2Chunked red d0 d1 a0 a1 M = coarsen2 red d0 d1 (sum a1) M := by
+  unfold coarsen2Chunked
+  have e : (splitBy a0 M).map (fun R => hcat ((chunkSpans 0 a1).map (fun sc => coarsen2 red d0 d1 sc.2 (colSlice sc.1 sc.2 R))))
+      = (splitBy a0 M).map (coarsenBlock (colCoarsen red d1 (sum a1)) d0) := by
+    apply List.map_congr_left
+    intro R _
+    rw [hcat_spans red d0 d1 hd1 R a1 0 hne h1, map_drop_zero]; rfl
+  rw [e]
+  have hA : AlignedLens d0 ((splitBy a0 M).map List.length) := by rw [splitBy_lengths a0 M hlen]; exact h0
+  have := coarsen_den_ragged (colCoarsen red d1 (sum a1)) d0 hd0 _ hA
+  unfold coarsenChunked at this
+  rw [this, splitBy_flatten' a0 M hlen]; rfl
+
+example : coarsen2Chunked (fun w => Chunks.sum (w.map Chunks.sum)) 2 2 [2, 2] [2, 1] [[1, 2, 3], [4, 5, 6], [7, 8, 9], [1, 1, 1]]
+    = [[12], [17]] := by decide
+example : AlignedLens 2 [2, 2] ∧ AlignedLens 2 [2, 1] := by simp [AlignedLens]
+
+/-- **coarsen2_any_chunking**: `da.coarsen` over both axes of a 2-d array, for EVERY chunking of the rows and of the
+    columns (and every argsort tie-breaking): guard, alignment of each axis, block-wise `chunk.coarsen`, tiling =
+    `chunk.coarsen` of the whole array, whenever that is defined (`trim_excess`, or both lengths multiples). -/
+theorem coarsen2_any_chunking {α β} (red : List (List α) → β) (trim : Bool) (d0 d1 : Nat) (hd0 : 0 < d0) (hd1 : 0 < d1)
+    (o0 o1 cs0 cs1 : List Nat) (M : List (List α)) (hv0 : ValidOrder o0 cs0 d0) (hv1 : ValidOrder o1 cs1 d1)
+    (hlen : M.length = sum cs0) (hok : trim = true ∨ (sum cs0 % d0 = 0 ∧ sum cs1 % d1 = 0)) :
+    daCoarsen2With o0 o1 red trim d0 d1 cs0 cs1 M = some (coarsen2 red d0 d1 (sum cs1) M) := by
+  obtain ⟨b0, h01, h02, h03, _⟩ := aligned_spec o0 cs0 d0 hd0 hv0
+  obtain ⟨b1, h11, h12, h13, h14⟩ := aligned_spec o1 cs1 d1 hd1 hv1
+  have hs0 : sum (b0 ++ (if sum cs0 % d0 = 0 then [] else [sum cs0 % d0])) = sum cs0 := by
+    rw [sum_append]; split <;> simp_all [sum]
+  have hs1 : sum (b1 ++ (if sum cs1 % d1 = 0 then [] else [sum cs1 % d1])) = sum cs1 := by
+    rw [sum_append]; split <;> simp_all [sum]
+  have hA0 := alignedLens_append d0 b0 (if sum cs0 % d0 = 0 then [] else [sum cs0 % d0]) h02 (by split <;> simp)
+  have hA1 := alignedLens_append d1 b1 (if sum cs1 % d1 = 0 then [] else [sum cs1 % d1]) h12 (by split <;> simp)
+  have hne1 : b1 ++ (if sum cs1 % d1 = 0 then [] else [sum cs1 % d1]) ≠ [] := by
+    rcases h14 with ⟨hn, _⟩ | ⟨_, hb⟩
+    · intro h
+      rw [h] at hs1
+      exact hn hs1.symm
+    · rw [hb]; simp
+  unfold daCoarsen2With
+  rw [if_neg (by omega)]
+  have hg : (!trim && (sum cs0 % d0 != 0 || sum cs1 % d1 != 0)) = false := by
+    rcases hok with h | ⟨h, h'⟩ <;> simp [*]
+  have hr : (!trim && ((b0 ++ (if sum cs0 % d0 = 0 then [] else [sum cs0 % d0])).any (· % d0 != 0)
+      || (b1 ++ (if sum cs1 % d1 = 0 then [] else [sum cs1 % d1])).any (· % d1 != 0))) = false := by
+    rcases hok with h | ⟨h, h'⟩
+    · simp [h]
+    · have a0 : (b0 ++ (if sum cs0 % d0 = 0 then [] else [sum cs0 % d0])).any (· % d0 != 0) = false := by
+        rw [if_pos h, List.append_nil, List.any_eq_false]
+        intro c hc; simp [Nat.mod_eq_zero_of_dvd (h02 c hc)]
+      have a1 : (b1 ++ (if sum cs1 % d1 = 0 then [] else [sum cs1 % d1])).any (· % d1 != 0) = false := by
+        rw [if_pos h', List.append_nil, List.any_eq_false]
+        intro c hc; simp [Nat.mod_eq_zero_of_dvd (h12 c hc)]
+      simp [a0, a1]
+  simp only [hg, h01, h11, hr]
+  rw [coarsen2_den red d0 d1 hd0 hd1 _ _ M hne1 hA0 hA1 (by rw [hs0, hlen]), hs1]
+  rfl
+
+example : daCoarsen2With [0, 1] [0, 1, 2] (fun w => Chunks.sum (w.map Chunks.sum)) true 2 2 [1, 3] [1, 1, 1]
+    [[1, 2, 3], [4, 5, 6], [7, 8, 9], [1, 1, 1]] = some [[12], [17]] := by decide
+example : ValidOrder [0, 1] [1, 3] 2 ∧ ValidOrder [0, 1, 2] [1, 1, 1] 2 := by decide
 
 /-! ### the remaining clauses of the statement -/
 
